@@ -291,7 +291,8 @@ def max_bottleneck_path(G: nx.DiGraph, flow_attr) -> tuple:
                     maxBottleneckSink = v
 
     # If no s-t flow exists in the network
-    if B[maxBottleneckSink] == 0:
+    # (no sink candidate at all in a graph without edges)
+    if maxBottleneckSink is None or B[maxBottleneckSink] == 0:
         return None, None
 
     # Recovering the path of maximum bottleneck
